@@ -10,6 +10,12 @@ Import ListNotations.
 Local Open Scope string_scope.
 Local Open Scope N_scope.
 
+(* tables are compared as SETS of (function, literal) pairs: a reordering or a repeated call in
+   entity.go does not break an obligation, a new / changed / missing literal does *)
+Definition pair_eqb (a b : string * string) : bool := String.eqb (fst a) (fst b) && String.eqb (snd a) (snd b).
+Definition pair_mem (l : list (string * string)) (p : string * string) : bool := existsb (pair_eqb p) l.
+Definition same_pairs (a b : list (string * string)) : bool := forallb (pair_mem b) a && forallb (pair_mem a) b.
+
 (* the order of [expand_with]: keys, data, status, state, event oneof, event, query,
    commands, publish topic, summary topics *)
 Definition model_run_order : list string :=
@@ -31,7 +37,13 @@ Definition model_suffix_sites : list (string * string) :=
    ("acceptPublishTopic", "Keys"); ("acceptPublishTopic", "EventType"); ("acceptPublishTopic", "Data");
    ("acceptPublishTopic", "Status");
    ("acceptQuery", "State"); ("acceptQuery", "State"); ("acceptQuery", "Event"); ("acceptQuery", "Event")].
-Lemma suffix_sites_agree : model_suffix_sites = EntityGen.suffix_sites.
+Lemma suffix_sites_agree : same_pairs model_suffix_sites EntityGen.suffix_sites = true.
+Proof. vm_compute; reflexivity. Qed.
+(* the six schemas are DEFINED through componentName in their own accept function *)
+Lemma definition_sites_use_component_name :
+  forallb (pair_mem EntityGen.suffix_sites)
+    [("acceptKeys", "Keys"); ("acceptData", "Data"); ("acceptStatus", "Status");
+     ("acceptState", "State"); ("acceptEventOneof", "EventType"); ("acceptEvent", "Event")] = true.
 Proof. vm_compute; reflexivity. Qed.
 Lemma no_camel_of_concatenation : EntityGen.camel_of_concat_sites = 0.
 Proof. vm_compute; reflexivity. Qed.
@@ -44,7 +56,7 @@ Definition model_strcase_calls : list (string * string) :=
    ("acceptPublishTopic", "ToCamel"); ("acceptPublishTopic", "ToCamel");
    ("acceptQuery", "ToCamel"); ("acceptQuery", "ToLowerCamel"); ("acceptQuery", "ToCamel");
    ("acceptQuery", "ToLowerCamel"); ("acceptQuery", "ToCamel"); ("acceptQuery", "ToCamel")].
-Lemma strcase_calls_agree : model_strcase_calls = EntityGen.strcase_calls.
+Lemma strcase_calls_agree : same_pairs model_strcase_calls EntityGen.strcase_calls = true.
 Proof. vm_compute; reflexivity. Qed.
 
 Definition model_formats : list (string * string) :=
@@ -57,7 +69,7 @@ Definition model_formats : list (string * string) :=
    ("acceptQuery", ":%s"); ("acceptQuery", ":%s"); ("acceptQuery", ":%s"); ("acceptQuery", ":%s");
    ("acceptQuery", "%sGet"); ("acceptQuery", "%sList"); ("acceptQuery", "%sEvents");
    ("acceptQuery", "/%s/q"); ("acceptQuery", "%sQuery")].
-Lemma formats_agree : model_formats = EntityGen.sprintf_formats.
+Lemma formats_agree : same_pairs model_formats EntityGen.sprintf_formats = true.
 Proof. vm_compute; reflexivity. Qed.
 
 (* acceptStatus (the enum prefix) and findStatus (default filters) use the same literal *)
@@ -72,12 +84,13 @@ Definition model_property_names : list (string * string) :=
    ("acceptQuery", "page"); ("acceptQuery", "query"); ("acceptQuery", "page");
    ("acceptQuery", "page"); ("acceptQuery", "query"); ("acceptQuery", "events"); ("acceptQuery", "page");
    ("acceptQuery", "events")].
-Lemma property_names_agree : model_property_names = EntityGen.property_names.
+Lemma property_names_agree : same_pairs model_property_names EntityGen.property_names = true.
 Proof. vm_compute; reflexivity. Qed.
 
 Lemma entity_parts_agree :
-  EntityGen.entity_parts = [("acceptKeys", "EntityPart_KEYS"); ("acceptData", "EntityPart_DATA");
-                            ("acceptState", "EntityPart_STATE"); ("acceptEvent", "EntityPart_EVENT")].
+  same_pairs EntityGen.entity_parts
+             [("acceptKeys", "EntityPart_KEYS"); ("acceptData", "EntityPart_DATA");
+              ("acceptState", "EntityPart_STATE"); ("acceptEvent", "EntityPart_EVENT")] = true.
 Proof. vm_compute; reflexivity. Qed.
 
 Lemma entity_name_is_snake : EntityGen.entity_name_function = "ToSnake".
